@@ -12,7 +12,7 @@ CONTENTS = {
         "TEXT": "g18/g3", "X": {"A": "NAME:bold", "B": "YELLOW/BLUE"},
         "GHIST": {"REPO": "RED", "HASH": "g7:bold", "VERSION": "(0,5,0)", "VER_NOT_MERGED": "BLUE:blink", "COMMIT_NAME": "WHITE/RED"}},
 }
-KINDS = ['pp', 'table', 'table2', 'record', 'help', 'leadblank', 'ghist', 'table4', 'relimit']
+KINDS = ['pp', 'table', 'table2', 'record', 'help', 'leadblank', 'ghist', 'table4', 'relimit', 'retitle']
 
 
 def make_conf(content, nc):
@@ -139,6 +139,19 @@ def render(objs, kind, conf, nocolor, mode):
         fresh = str(PPTable(wide, fmt='id,name;*', fields=['id', 'name']).ch_text(colors_conf=conf, no_color=nocolor))
         return second if second == fresh else second + '\nMEMORY: a table printed before its limits were changed prints differently from a fresh one'
 
+    if kind == 'retitle':
+        # column titles of different heights: the table is printed with its tallest title, then a table built from its
+        # format without that column is printed - it must look like a table that never had the column
+        from ak.ppobj import PPTable
+        titles = {'id': ('id\nof the\nrecord', ), 'name': ('name', ), 'st': ('state', )}
+        t = PPTable(objs.recs[:3], fmt='id:6,name:8,st:9', fields=['id', 'name', 'st', 'st2'], fields_types={'st': objs.enum},
+                    fields_titles=titles)
+        str(t.ch_text(colors_conf=conf, no_color=nocolor))
+        second = str(PPTable(objs.recs[:3], fmt_obj=t.fmt, skip_columns=['id']).ch_text(colors_conf=conf, no_color=nocolor))
+        fresh = str(PPTable(objs.recs[:3], fmt='name:8,st:9', fields=['id', 'name', 'st', 'st2'], fields_types={'st': objs.enum},
+                            fields_titles=titles).ch_text(colors_conf=conf, no_color=nocolor))
+        return second if second == fresh else second + '\nMEMORY: a table built from the format of a printed table (one column skipped) prints differently from a fresh one'
+
     def start(conf, nocolor):
         if kind == 'table4':
             return objs.table4.ch_text(colors_conf=conf, no_color=nocolor)
@@ -197,7 +210,7 @@ LINE_MODES = ('lines', 'collect', 'inter1', 'inter2')
 def render_linewise(objs, kind, conf, nocolor, whole):
     """the object consumed line by line in every supported way; returns the first result that differs from the
     whole text (or the whole text when all agree)"""
-    if kind in ('help', 'record', 'relimit'):
+    if kind in ('help', 'record', 'relimit', 'retitle'):
         return render(objs, kind, conf, nocolor, 'lines')
     for mode in LINE_MODES:
         s = render(objs, kind, conf, nocolor, mode)
